@@ -391,7 +391,7 @@ pub fn c17(tier: &str, seed: u64) -> Check {
         "C17",
         tier,
         seed,
-        "three exhaustive explorations of the real code: (1) configurations — the answer of available_parallelism() is owned by the harness (cfg(graaf_verif) seam) and swept over Err, 1..=16 (33) and a few larger values for every input: every ordered pair of digraphs of order ≤ 3 and structured families at orders 1..10, 15..17, 31..33 (..70) so that row counts fall below, on, just above and far above the thread count and are not multiples of the chunk size; AdjacencyMap::union over every ordered pair of key sets ⊆ 0..5 (0..6); the seeded AdjacencyMap generators valid and repeatable per configuration; (2) conformance of that seam with reality — a battery whose digest depends on the thread count is run with the seam unset under `taskset -c 0-(k-1)` and must equal the run with the seam set to k; (3) schedules — all eight routines under our preemption-bounded depth-first scheduler on shuttle's runtime (2 workers, ≤ 2 preemptions quick; 2-3 workers, ≤ 3 thorough): every schedule must give the reference result and one outcome per input. Non-trivial: rows > threads with a ragged last chunk; partially overlapping key sets; schedules with ≥ 1 preemption.",
+        "three exhaustive explorations of the real code: (1) configurations — the answer of available_parallelism() is owned by the harness (cfg(graaf_verif) seam) and swept over Err, 1..=16 (33) and a few larger values for every input: every ordered pair of digraphs of order ≤ 3 and structured families at orders 1..10, 15..17, 31..33 (..70) so that row counts fall below, on, just above and far above the thread count and are not multiples of the chunk size; AdjacencyMap::union over every ordered pair of key sets ⊆ 0..5 (0..6); the seeded AdjacencyMap generators valid and repeatable per configuration; (2) conformance of that seam with reality — a battery whose digest depends on the thread count is run with the seam unset under `taskset -c 0-(k-1)` and must equal the run with the seam set to k; (3) schedules — all eight routines under our preemption-bounded depth-first scheduler on shuttle's runtime (≤ 3 preemptions; 2-3 workers quick, 2-4 workers and more inputs thorough): every schedule must give the reference result and one outcome per input. Non-trivial: rows > threads with a ragged last chunk; partially overlapping key sets; schedules with ≥ 1 preemption.",
         &[
             "writes through raw pointers inside the workers are invisible to a cooperative scheduler; their data-race freedom is checked by Miri's race detector in C13, on free-running threads",
             "shuttle treats every atomic as SeqCst",
